@@ -169,7 +169,7 @@ fn instructions(ctx: &mut Ctx) {
     let cache = sorted_cache(&is);
     let judge = Judge { frame: true, reference: true };
     const NB: [&str; 4] = ["LIST.NEIGHBOR*IDS", "LIST.NEIGHBOR*BVALS", "LIST.NEIGHBOR*IVALS", "LIST.NEIGHBOR*FVALS"];
-    let n = ctx.n(8000, 200000);
+    let n = ctx.n(30000, 600000);
     for k in 0..n as u64 {
         if !ctx.mine(k) {
             continue;
